@@ -275,6 +275,12 @@ def check_streams(case):
           if got[1] not in ok_errs:
             r.bad('C15/streams/read-wrong-error/%s' % got[1], '%s: %r' % (when, got))
           if got[1] == 'AdbStreamClosedError':
+            # whichever side closed: what the host had already received (= acknowledged with an OKAY) is buffered data and
+            # is drained before the stream reports closed
+            acked = ''.join(sc.get('wrtes', [])[:count_host(dev, 'OKAY', ent['local'])])
+            if len(acked) > consumed and (not op[2] or len(acked) - consumed >= op[2]):
+              r.bad('C15/streams/buffered-data-not-drained', '%s: stream (state %s) reported closed, but %r was received and acknowledged and never returned by read()' % (
+                  when, ent['state'], acked[consumed:][:30]))
             if ent['state'] == 'open' and not sc.get('close'):
               r.bad('C15/streams/closed-error-on-open-stream', '%s: stream is open on both sides' % when)
             if ent['state'] == 'open' and sc.get('close') and remaining and (not op[2] or len(remaining) >= op[2]):
